@@ -406,9 +406,17 @@ impl Server {
             .filter(|p| p.contains(id) || p.contains(id2))
             .filter(|p| p.ids().len() > 1)
             .sorted_by(|a, b| {
+                // (by the place of the headings, not by node ids: those depend on the order in
+                // which the notes were loaded or last edited)
+                let place = |id: &NodeId| {
+                    (
+                        self.database.graph().key_of(*id),
+                        self.database.graph().node_line_number(*id),
+                    )
+                };
                 for (x, y) in a.ids().iter().zip(b.ids().iter()) {
                     if x != y {
-                        return y.cmp(x); // For descending order
+                        return place(y).cmp(&place(x)).then(y.cmp(x)); // For descending order
                     }
                 }
                 b.ids().len().cmp(&a.ids().len()) // If all elements are equal, compare b
